@@ -153,6 +153,118 @@ impl Serialize for Bytes {
     }
 }
 
+// ---- second zoo: map-key kinds, container attributes, std impls --------------------
+#[derive(Serialize, Deserialize, PartialEq, Eq, PartialOrd, Ord, Hash, Debug, Clone)]
+struct UserId(String);
+
+#[derive(Serialize, Deserialize, PartialEq, Eq, PartialOrd, Ord, Hash, Debug, Clone, Copy)]
+enum Color {
+    Red,
+    Green,
+    #[serde(rename = "b l u e")]
+    Blue,
+}
+
+/// Trailing fields may be missing from a short array.
+#[derive(Serialize, Deserialize, PartialEq, Debug, Clone)]
+struct Version(u32, #[serde(default)] u32, #[serde(default)] u32);
+
+#[derive(Serialize, Deserialize, PartialEq, Debug, Clone)]
+#[serde(rename_all = "camelCase", deny_unknown_fields)]
+struct Strict {
+    first_name: String,
+    #[serde(default)]
+    age_years: u8,
+    #[serde(alias = "nick", skip_serializing_if = "Option::is_none", default)]
+    nick_name: Option<String>,
+}
+
+#[derive(Serialize, Deserialize, PartialEq, Debug, Clone)]
+#[serde(default)]
+struct AllDefault {
+    a: i32,
+    b: String,
+    c: Vec<u8>,
+}
+impl Default for AllDefault {
+    fn default() -> Self {
+        AllDefault { a: 7, b: "dflt".into(), c: vec![1] }
+    }
+}
+
+#[derive(Serialize, Deserialize, PartialEq, Debug, Clone)]
+enum WithOther {
+    A,
+    B,
+    #[serde(other)]
+    Unknown,
+}
+
+#[derive(Serialize, Deserialize, PartialEq, Debug, Clone)]
+#[serde(rename_all = "SCREAMING_SNAKE_CASE")]
+enum Shout {
+    FirstOne,
+    SecondOne { inner_field: i8 },
+}
+
+#[derive(Serialize, Deserialize, PartialEq, Debug, Clone)]
+struct StdZoo {
+    d: std::time::Duration,
+    ip: std::net::IpAddr,
+    nz: std::num::NonZeroU8,
+    r: Result<i32, String>,
+    rg: std::ops::Range<i32>,
+    set: std::collections::BTreeSet<u8>,
+    dq: std::collections::VecDeque<i8>,
+    one: (i32,),
+    cow: std::borrow::Cow<'static, str>,
+    bx: Box<Option<i16>>,
+    ph: std::marker::PhantomData<u8>,
+    bound: std::ops::Bound<u8>,
+    wrap: std::num::Wrapping<u8>,
+    path: std::path::PathBuf,
+    arr0: [u8; 0],
+    nested: Option<Vec<Option<(bool, char)>>>,
+}
+
+#[derive(Serialize, Deserialize, PartialEq, Debug, Clone)]
+// (Integer-keyed maps are outside C14's quantifier — "string-keyed maps": serde_json
+// spells integer keys as strings, this crate refuses them with KeyMustBeAString.)
+struct Keyed {
+    by_id: BTreeMap<UserId, u32>,
+    by_char: BTreeMap<char, u8>,
+    by_color: BTreeMap<Color, i8>,
+}
+
+fn gstdzoo(r: &mut Rng) -> StdZoo {
+    StdZoo {
+        d: std::time::Duration::new(r.below(5) as u64, r.below(1000) as u32),
+        ip: ["127.0.0.1", "::1", "10.0.0.255", "fe80::1"][r.below(4)].parse().unwrap(),
+        nz: std::num::NonZeroU8::new(1 + r.below(255) as u8).unwrap(),
+        r: if r.chance(1, 2) { Ok(gi(r, -9, 9)) } else { Err(gstr(r)) },
+        rg: gi(r, -9, 9)..gi(r, -9, 9),
+        set: (0..r.below(4)).map(|_| gi::<u8>(r, 0, 9)).collect(),
+        dq: (0..r.below(4)).map(|_| gi::<i8>(r, -9, 9)).collect(),
+        one: (gi(r, -9, 9),),
+        cow: std::borrow::Cow::Owned(gstr(r)),
+        bx: Box::new(if r.chance(1, 2) { None } else { Some(gi(r, -9, 9)) }),
+        ph: std::marker::PhantomData,
+        bound: [std::ops::Bound::Unbounded, std::ops::Bound::Included(3), std::ops::Bound::Excluded(gi(r, 0, 9))][r.below(3)],
+        wrap: std::num::Wrapping(gi(r, 0, 255)),
+        path: std::path::PathBuf::from(["", "/a/b", "c.txt", "é"][r.below(4)]),
+        arr0: [],
+        nested: [None, Some(vec![]), Some(vec![None, Some((true, 'x'))])][r.below(3)].clone(),
+    }
+}
+
+fn gkeyed(r: &mut Rng) -> Keyed {
+    Keyed {
+        by_id: (0..r.below(3)).map(|_| (UserId(gstr(r)), gi(r, 0, 9))).collect(),
+        by_char: (0..r.below(3)).map(|_| (['a', 'é', '1', '"'][r.below(4)], gi(r, 0, 9))).collect(),
+        by_color: (0..r.below(3)).map(|_| ([Color::Red, Color::Green, Color::Blue][r.below(3)], gi(r, -9, 9))).collect(),
+    }
+}
+
 fn gstr(rng: &mut Rng) -> String {
     ["", "a", "Unit", "é日", "\u{1F600}", "a b", "t", "x\"y\\"][rng.below(8)].to_string()
 }
@@ -297,6 +409,19 @@ fn foreign_pool() -> Vec<Value> {
         json!({"Seq": [null, 1]}), json!({"Seq": null}), json!({"Opt": [1]}), json!({"Unit": 1}),
         json!("Tuple"), json!("Struct"), json!({"Tuple": 1}), json!({"Tuple": "x"}), json!({"Tuple": {}}), json!({"Tuple": []}), json!({"Struct": 1}), json!({"Struct": "x"}),
         json!({"Unit": 1}), json!({"Unit": []}), json!({"Newtype": null}), json!({"Newtype": "1"}), json!([]), json!([[]]), json!({"t": "D", "c": []}), json!({"t": "A", "c": null}),
+        // second zoo
+        json!([1]), json!([1, 2]), json!([1, 2, 3]), json!([1, 2, 3, 4]), json!(["1"]), json!([1, null]),
+        json!({"firstName": "a"}), json!({"firstName": "a", "ageYears": 3, "nick": "n"}), json!({"firstName": "a", "nickName": "m", "nick": "n"}), json!({"firstName": "a", "extra": 1}),
+        json!({"first_name": "a"}), json!({"firstName": "a", "ageYears": 300}), json!({"firstName": "a", "nickName": null}),
+        json!({"a": 1}), json!({"b": "x", "c": []}), json!({"a": null}), json!({"zzz": 1}),
+        json!("A"), json!("B"), json!("Red"), json!("b l u e"), json!("Blue"), json!("Purple"), json!("Unknown"), json!({"A": null}), json!({"Purple": null}), json!({"Purple": 1}),
+        json!("FIRST_ONE"), json!({"SECOND_ONE": {"INNER_FIELD": 1}}), json!({"SECOND_ONE": {"inner_field": 1}}), json!("FirstOne"),
+        json!({"1": "a", "2": "b"}), json!({"-1": true, "5": false}), json!({"01": "a"}), json!({"1.0": "a"}), json!({" 1": "a"}), json!({"4294967296": "a"}), json!({"9223372036854775808": true}),
+        json!({"a": 1, "b": 2}), json!({"ab": 1}), json!({"": 1}), json!({"é": 1}), json!({"Red": 1, "b l u e": 2}), json!({"Blue": 1}), json!({"true": 1}),
+        json!({"secs": 1, "nanos": 2}), json!({"secs": 1}), json!([1, 2]), json!({"secs": -1, "nanos": 0}), json!({"secs": 1, "nanos": 2, "x": 0}),
+        json!("127.0.0.1"), json!("::1"), json!("x"), json!({"V4": [127, 0, 0, 1]}),
+        json!({"Ok": 1}), json!({"Err": "e"}), json!({"Ok": "e"}), json!({"ok": 1}), json!({"Ok": 1, "Err": "e"}),
+        json!({"start": 1, "end": 5}), json!({"start": 1}), json!([1, 5]), json!("Unbounded"), json!({"Included": 3}), json!({"Excluded": 300}),
         json!({"id": 1, "k": 2, "j": 3}), json!({"id": 1}), json!({"id": "x"}), json!({"renamed-key": 5, "y": null}), json!({"renamed-key": 5, "y": {"renamed-key": 6, "y": null}}), json!({"x": 5}),
     ]
 }
@@ -321,6 +446,13 @@ pub fn run(args: &Args) {
                 BTreeMap<String, i32> => "BTreeMap<String,i32>", HashMap<String, Vec<i32>> => "HashMap<String,Vec<i32>>",
                 Named => "Named", TupleS => "TupleS", Newtype => "Newtype", UnitS => "UnitS", Ext => "Ext", Internal => "Internal", Adjacent => "Adjacent",
                 Untagged => "Untagged", Nullable => "Nullable", Vec<Nullable> => "Vec<Nullable>", Option<()> => "Option<()>", Inner => "Inner", Flat => "Flat", Vec<Ext> => "Vec<Ext>", Option<Named> => "Option<Named>", Value => "Value",
+                UserId => "UserId", Color => "Color", Version => "Version", Strict => "Strict", AllDefault => "AllDefault", WithOther => "WithOther", Shout => "Shout",
+                BTreeMap<UserId, u32> => "BTreeMap<UserId,u32>", BTreeMap<char, u8> => "BTreeMap<char,u8>",
+                BTreeMap<Color, i8> => "BTreeMap<Color,i8>",
+                std::time::Duration => "Duration", std::net::IpAddr => "IpAddr", std::num::NonZeroU8 => "NonZeroU8", Result<i32, String> => "Result<i32,String>",
+                std::ops::Range<i32> => "Range<i32>", std::collections::BTreeSet<u8> => "BTreeSet<u8>", (i32,) => "(i32,)", std::ops::Bound<u8> => "Bound<u8>",
+                [u8; 0] => "[u8;0]", std::path::PathBuf => "PathBuf", Box<Option<i16>> => "Box<Option<i16>>", std::num::Wrapping<u8> => "Wrapping<u8>",
+                Option<Vec<Option<(bool, char)>>> => "Option<Vec<Option<(bool,char)>>>", (Version, Color) => "(Version,Color)", Vec<Version> => "Vec<Version>",
             );
         }
     }
@@ -328,7 +460,7 @@ pub fn run(args: &Args) {
     for i in 0..args.n {
         let mut rng = Rng::derive(args.seed, args.shard + 12000, i);
         let r = &mut rng;
-        match i % 38 {
+        match i % 46 {
             34 => {
                 let v = DupFlatten {
                     kind: "outer".into(),
@@ -345,6 +477,19 @@ pub fn run(args: &Args) {
                 let v = DupMap((0..r.below(5) + 1).map(|_| (["a", "b", "a"][r.below(3)].to_string(), gi::<i32>(r, -9, 9))).collect());
                 check_ser(&mut rep, &v, "DupMap(duplicate keys)");
             }
+            38 => both(&mut rep, &gstdzoo(r), "StdZoo", &ident),
+            39 => both(&mut rep, &gkeyed(r), "Keyed", &ident),
+            40 => both(&mut rep, &Version(gi(r, 0, 9), gi(r, 0, 2), gi(r, 0, 2)), "Version", &ident),
+            41 => both(
+                &mut rep,
+                &Strict { first_name: gstr(r), age_years: gi(r, 0, 255), nick_name: if r.chance(1, 2) { None } else { Some(gstr(r)) } },
+                "Strict",
+                &ident,
+            ),
+            42 => both(&mut rep, &AllDefault { a: gi(r, -9, 9), b: gstr(r), c: vec![] }, "AllDefault", &ident),
+            43 => both(&mut rep, &[Shout::FirstOne, Shout::SecondOne { inner_field: gi(r, -9, 9) }][r.below(2)].clone(), "Shout", &ident),
+            44 => both(&mut rep, &(0..r.below(4)).map(|_| (UserId(gstr(r)), gi::<u32>(r, 0, 9))).collect::<BTreeMap<UserId, u32>>(), "BTreeMap<UserId,u32>", &ident),
+            45 => both(&mut rep, &[WithOther::A, WithOther::B][r.below(2)].clone(), "WithOther", &ident),
             0 => both(&mut rep, &r.chance(1, 2), "bool", &ident),
             1 => both(&mut rep, &gi::<i8>(r, i8::MIN as i128, i8::MAX as i128), "i8", &ident),
             2 => both(&mut rep, &gi::<i16>(r, i16::MIN as i128, i16::MAX as i128), "i16", &ident),
